@@ -721,6 +721,17 @@ func (w *Writer) batchMessages(messages []Message, assignments map[topicPartitio
 		}
 	}
 
+	if w.closed {
+		// Close has already swept w.writers: a call that entered before Close
+		// marked the writer closed would otherwise leave behind partition
+		// writers whose queues are never closed, and Close would wait for
+		// their goroutines forever. Flush and stop the ones created here.
+		for key, writer := range w.writers {
+			writer.close()
+			delete(w.writers, key)
+		}
+	}
+
 	return batches
 }
 
